@@ -115,6 +115,19 @@ CLAIMED['C06'] = (
     'injective); LOWER uninterpreted (idempotent on canonical atoms); JSON float round-trip and the real file system are '
     'outside; interleavings are covered as: write, overwrite in another spelling, write of a neighbouring key, reads.',
     'DESIGN.md §4 C06', TECH + '; z3 + cvc5 string theory for location terms')
+CLAIMED['C07'] = (
+    'provider: each of the 13 rate accessors and wavelength() of OpenADAS (run from source) is executed for all 8 flag '
+    'combinations, element / isotope arguments and a nondeterministic repository (every getter either returns a token or '
+    'raises RuntimeError): missing data raises RuntimeError or - when null rates were requested - yields the real '
+    '(translated) Null* rate, which is constructed without error and evaluates to 0 at symbolic arguments; isotopes are '
+    'looked up through their element, wavelengths through the species as documented, flags and data path are forwarded. '
+    'rate objects: all data-backed rate classes (translated) are built from symbolic positive tables on 2x2 grids (1- and '
+    '3-point axes thorough) and evaluated at a symbolically chosen point kind per axis: grid point => stored value times '
+    'the documented factor (hc/lambda, sen*st/sref, qeb*qti*qni*qz*qb/qref^4), non-positive argument => 0, >= 0, outside '
+    'the range => ValueError iff extrapolation is off.',
+    'raysect cubic interpolators by contract (node value, range policy); log10 and 10**x uninterpreted inverse monotone '
+    'functions; values between grid points are not claimed.',
+    'DESIGN.md §4 C07', TECH)
 NOT_YET = {}
 props = [json.loads(l) for l in open(os.path.join(HERE, 'properties.jsonl'))]
 checks, na = [], []
